@@ -1237,3 +1237,146 @@ Qed.
 
 Lemma layout_u64 z : encode TU64 (VInt z) = [z mod 4294967296; (z / 4294967296) mod 4294967296].
 Proof. cbn [encode]. unfold limb. change (2 ^ (32 * 0)) with 1. change (2 ^ (32 * 1)) with 4294967296. rewrite Z.div_1_r. reflexivity. Qed.
+
+(* ================================================================ cost_linear (C13) *)
+Definition costs (ts : list ty) := map (fun t => (static_length t, cost t)) ts.
+Lemma costs_rev ts : rev (costs ts) = costs (rev ts).
+Proof. unfold costs. symmetry. apply map_rev. Qed.
+
+Definition bounded (K : Z) (cst : list Z -> Z) : Prop := forall c, 0 <= cst c <= K * (zlen c + 1).
+Definition cost_bound_at (t : ty) : Prop := no_width0_list t = true -> bounded (cost_coeff t) (cost t).
+
+Lemma zsum_nonneg l : Forall (fun x => 0 <= x) l -> 0 <= zsum l.
+Proof. induction 1 as [|x r Hx _ IH]; unfold zsum in *; cbn [fold_right]; lia. Qed.
+
+Lemma zsum_In_le l x : Forall (fun x => 0 <= x) l -> In x l -> x <= zsum l.
+Proof.
+  induction 1 as [|y r Hy Hr IH]; intros Hin; [destruct Hin|]. pose proof (zsum_nonneg r Hr). unfold zsum in *. cbn [fold_right].
+  destruct Hin as [->|Hin]; [lia|]. specialize (IH Hin). lia.
+Qed.
+
+Theorem cost_coeff_pos : forall t, 1 <= cost_coeff t.
+Proof.
+  apply ty_nested_ind; cbn [cost_coeff]; try lia; intros.
+  - assert (0 <= zsum (map cost_coeff ts)); [|lia]. apply zsum_nonneg. apply Forall_map. eapply Forall_impl; [|exact H]. cbv beta. intros; lia.
+  - assert (0 <= zsum (map cost_coeff fs)); [|lia]. apply zsum_nonneg. apply Forall_map. eapply Forall_impl; [|exact H]. cbv beta. intros; lia.
+  - assert (0 <= zsum (map (fun fs => zsum (map cost_coeff fs)) vs)); [|lia]. apply zsum_nonneg. apply Forall_map.
+    eapply Forall_impl; [|exact H]. cbv beta. intros fs Hfs. apply zsum_nonneg. apply Forall_map. eapply Forall_impl; [|exact Hfs]. cbv beta. intros; lia.
+Qed.
+
+Lemma coeff_sum_nonneg ts : 0 <= zsum (map cost_coeff ts).
+Proof. apply zsum_nonneg. apply Forall_map. apply Forall_forall. intros t _. pose proof (cost_coeff_pos t). lia. Qed.
+
+Lemma cost_fields_bound ts : Forall cost_bound_at ts -> forallb no_width0_list ts = true ->
+  bounded (zsum (map cost_coeff ts)) (cost_fields (costs ts)).
+Proof.
+  intros HQ Hn. apply forallb_Forall in Hn. unfold bounded. induction ts as [|t ts IH]; intros s.
+  - cbn. pose proof (zlen_nonneg s). lia.
+  - inversion HQ as [|? ? Ht Hr]; subst. inversion Hn as [|? ? Hnt Hnr]; subst. specialize (IH Hr Hnr).
+    cbn [costs map cost_fields]. fold (costs ts). unfold zsum. cbn [fold_right]. fold (zsum (map cost_coeff ts)).
+    pose proof (coeff_sum_nonneg ts) as Hs. pose proof (cost_coeff_pos t) as Hp. pose proof (zlen_nonneg s) as Hz.
+    destruct (field_header (static_length t) s) as [[len s1]|] eqn:Eh; [|nia].
+    assert (Hle : zlen s1 <= zlen s).
+    { unfold field_header in Eh. destruct (static_length t); [inversion Eh; subst; lia|].
+      destruct s as [|x s']; [discriminate|]. inversion Eh; subst. rewrite zlen_cons. lia. }
+    destruct (zlen s1 <? len); [nia|].
+    pose proof (Ht Hnt (ztake len s1)) as B1. pose proof (IH (zdrop len s1)) as B2.
+    pose proof (zlen_ztake_le len s1). pose proof (zlen_zdrop_le len s1).
+    pose proof (zlen_nonneg (ztake len s1)). pose proof (zlen_nonneg (zdrop len s1)).
+    split; [lia|]. 
+    assert (cost_coeff t * (zlen (ztake len s1) + 1) <= cost_coeff t * (zlen s + 1)) by (apply Z.mul_le_mono_nonneg_l; lia).
+    assert (zsum (map cost_coeff ts) * (zlen (zdrop len s1) + 1) <= zsum (map cost_coeff ts) * (zlen s + 1)) by (apply Z.mul_le_mono_nonneg_l; lia).
+    lia.
+Qed.
+
+Lemma cost_record_bound ts : Forall cost_bound_at ts -> forallb no_width0_list ts = true ->
+  bounded (zsum (map cost_coeff ts)) (cost_fields (rev (costs ts))).
+Proof.
+  intros HQ Hn. rewrite costs_rev. rewrite <- zsum_rev, <- map_rev. apply cost_fields_bound; [apply Forall_rev; exact HQ|].
+  apply forallb_Forall. apply Forall_rev. apply forallb_Forall. exact Hn.
+Qed.
+
+Lemma chunks_exact_widths w : 0 < w -> forall fuel s, Forall (fun c => zlen c = w) (chunks_exact fuel w s).
+Proof.
+  intros Hw. induction fuel as [|f IH]; intros s; cbn [chunks_exact]; [constructor|].
+  destruct (zlen s <? w) eqn:E; [constructor|]. constructor; [apply zlen_ztake; blia|apply IH].
+Qed.
+
+Lemma zsum_map_bound {A} (f : A -> Z) (M : Z) l : Forall (fun x => 0 <= f x <= M) l -> 0 <= zsum (map f l) <= M * zlen l.
+Proof.
+  induction 1 as [|x r Hx _ IH]; unfold zsum in *; cbn [map fold_right]; [cbn [zlen]; lia|]. rewrite zlen_cons. lia.
+Qed.
+
+Lemma cost_list_static_bound K w cst n s : 0 <= K -> 0 < w -> bounded K cst ->
+  0 <= cost_list_static w cst n s <= (2 * K + 1) * zlen s.
+Proof.
+  intros HK Hw Hb. unfold cost_list_static. pose proof (zlen_nonneg s) as Hz.
+  destruct (18446744073709551616 <=? n * w); [nia|]. destruct (zlen s <? n * w) eqn:E2; [nia|].
+  destruct (n * w <? zlen s) eqn:E3; [nia|]. destruct (w =? 0) eqn:E4; [exfalso; blia|].
+  assert (Hs : zlen s = n * w) by blia. assert (Hn : 0 <= n) by nia.
+  destruct (chunks_exact_spec w Hw (S (length s)) s n Hn Hs ltac:(lia)) as [_ Hcl].
+  pose proof (chunks_exact_widths w Hw (S (length s)) s) as Hcw.
+  set (cs := chunks_exact (S (length s)) w s) in *.
+  assert (Hf : Forall (fun c => 0 <= 1 + cst c <= 1 + K * (w + 1)) cs).
+  { eapply Forall_impl; [|exact Hcw]. cbv beta. intros c Hc. pose proof (Hb c) as Hbc. rewrite Hc in Hbc. lia. }
+  pose proof (zsum_map_bound (fun c => 1 + cst c) (1 + K * (w + 1)) cs Hf) as Hsum. rewrite Hcl in Hsum.
+  split; [lia|]. rewrite Hs. assert (n <= n * w) by nia. nia.
+Qed.
+
+Lemma cost_list_dyn_bound K cst : 0 <= K -> bounded K cst ->
+  forall fuel tot n idx rest, 0 <= cost_list_dyn fuel cst tot n idx rest <= (K + 1) * zlen rest.
+Proof.
+  intros HK Hb. induction fuel as [|f IH]; intros tot n idx rest; pose proof (zlen_nonneg rest) as Hz; cbn [cost_list_dyn].
+  - destruct (n <=? 0); [nia|]. destruct rest; nia.
+  - destruct (n <=? 0); [nia|]. destruct rest as [|il rest1]; [nia|]. rewrite zlen_cons in *.
+    destruct (18446744073709551616 <=? idx + 1 + il); [nia|]. destruct (tot <? idx + 1 + il); [nia|].
+    pose proof (Hb (ztake il rest1)) as B1. pose proof (IH tot (n - 1) (idx + 1 + il) (zdrop il rest1)) as B2.
+    assert (E : zlen rest1 = zlen (ztake il rest1) + zlen (zdrop il rest1)) by (rewrite <- zlen_app, ztake_zdrop; reflexivity).
+    pose proof (zlen_nonneg (ztake il rest1)). pose proof (zlen_nonneg (zdrop il rest1)). rewrite E. nia.
+Qed.
+
+Lemma cost_list_bound t n s : cost_bound_at t -> no_width0_list t = true -> width0 t = false ->
+  0 <= cost_list (static_length t) (cost t) n s <= (2 * cost_coeff t + 1) * zlen s.
+Proof.
+  intros HQ Hn Hw. pose proof (cost_coeff_pos t) as Hp. pose proof (zlen_nonneg s) as Hz. unfold cost_list.
+  destruct (static_length t) as [w|] eqn:Ew.
+  - apply cost_list_static_bound; [lia| |apply HQ; exact Hn].
+    pose proof (static_length_nonneg t w Ew). unfold width0 in Hw. rewrite Ew in Hw. cbn [opt_z_eqb] in Hw. blia.
+  - pose proof (cost_list_dyn_bound (cost_coeff t) (cost t) ltac:(lia) (HQ Hn) (length s) (zlen s) n 0 s). nia.
+Qed.
+
+Theorem cost_linear : forall t, cost_bound_at t.
+Proof.
+  apply ty_nested_ind; unfold cost_bound_at, bounded; cbn [cost cost_coeff no_width0_list].
+  1-8: intros _ c; pose proof (zlen_nonneg c); lia.
+  - (* Box *) intros t IH Hn c. specialize (IH Hn c). pose proof (zlen_nonneg c). lia.
+  - (* Option *) intros t IH Hn c. pose proof (cost_coeff_pos t). destruct c as [|x r]; [cbn [zlen]; lia|]. rewrite zlen_cons.
+    pose proof (zlen_nonneg r). destruct (x =? 1); [|nia]. specialize (IH Hn r). nia.
+  - (* Vec *) intros t IH Hn c. apply andb_true_iff in Hn. destruct Hn as [Hw Hn]. apply negb_true_iff in Hw.
+    pose proof (cost_coeff_pos t). destruct c as [|n r]; cbn [cost_vec]; [cbn [zlen]; lia|]. rewrite zlen_cons.
+    pose proof (cost_list_bound t n r IH Hn Hw). pose proof (zlen_nonneg r). nia.
+  - (* Array *) intros k t IH Hn c. apply andb_true_iff in Hn. destruct Hn as [Hw Hn]. apply negb_true_iff in Hw.
+    pose proof (cost_coeff_pos t). pose proof (cost_list_bound t (Z.of_N k) c IH Hn Hw). pose proof (zlen_nonneg c). nia.
+  - (* Tuple *) intros ts IH Hn c. fold (costs ts). pose proof (cost_record_bound ts IH Hn c). pose proof (zlen_nonneg c).
+    pose proof (coeff_sum_nonneg ts). nia.
+  - (* Poly *) intros t IH Hn c. apply andb_true_iff in Hn. destruct Hn as [Hw Hn]. apply negb_true_iff in Hw.
+    pose proof (cost_coeff_pos t). destruct c as [|ind r]; [cbn [zlen]; lia|].
+    pose proof (zlen_nonneg r). destruct (zlen (ind :: r) =? ind + 1); rewrite zlen_cons; [|nia].
+    destruct r as [|n r']; cbn [cost_vec]; [cbn [zlen]; lia|]. rewrite zlen_cons.
+    pose proof (cost_list_bound t n r' IH Hn Hw). pose proof (zlen_nonneg r'). nia.
+  - (* U32s *) intros n _ c. pose proof (zlen_nonneg c). lia.
+  - (* Struct *) intros ts IH Hn c. fold (costs ts). pose proof (cost_record_bound ts IH Hn c). pose proof (zlen_nonneg c).
+    pose proof (coeff_sum_nonneg ts). nia.
+  - (* Enum *) intros vs IH Hn c.
+    assert (Hall : Forall (fun x => 0 <= x) (map (fun fs => zsum (map cost_coeff fs)) vs)).
+    { apply Forall_map. apply Forall_forall. intros fs _. apply coeff_sum_nonneg. }
+    pose proof (zsum_nonneg _ Hall) as Hs.
+    destruct c as [|d r]; [cbn [zlen]; lia|]. rewrite zlen_cons. pose proof (zlen_nonneg r).
+    rewrite (znth_opt_map (fun fs => map (fun t => (static_length t, cost t)) fs)).
+    destruct (znth_opt d vs) as [fs|] eqn:Ed; cbn [option_map]; [|nia]. fold (costs fs).
+    pose proof (znth_opt_In _ _ _ Ed) as Hin. rewrite Forall_forall in IH. rewrite forallb_forall in Hn.
+    pose proof (cost_record_bound fs (IH fs Hin) (Hn fs Hin) r) as B.
+    assert (Hle : zsum (map cost_coeff fs) <= zsum (map (fun fs => zsum (map cost_coeff fs)) vs)).
+    { apply zsum_In_le; [exact Hall|]. apply in_map_iff. exists fs. split; [reflexivity|exact Hin]. }
+    pose proof (coeff_sum_nonneg fs). nia.
+Qed.
